@@ -8728,3 +8728,15 @@ mod tests {
         }
     }
 }
+
+// ========================================================================
+// Verification hooks (read-only accessors to private items); compiled only
+// with --cfg pornin_crrl_verif.
+
+#[cfg(pornin_crrl_verif)]
+impl Point {
+    pub fn verif_recode_scalar(n: &Scalar) -> [i8; 51] { Self::recode_scalar(n) }
+    pub fn verif_recode_scalar_NAF(n: &Scalar) -> [i8; 254] { Self::recode_scalar_NAF(n) }
+    pub fn verif_recode_u128_NAF(n: u128) -> [i8; 130] { Self::recode_u128_NAF(n) }
+    pub fn verif_lookup(win: &[Self; 16], k: i8) -> Self { Self::lookup(win, k) }
+}
